@@ -674,7 +674,10 @@ Record case := {
   c_bufsize : nat; c_nw : nat; c_nt : nat; c_base : N; c_ops : list op;
   c_snaps : list (list N);          (* implementation: snapshot after every operation ([] = not observed) *)
   c_files : list (list byte);       (* implementation: final <tid>.dat of model threads 0..nt-1 *)
-  c_lost : N                        (* implementation: shmem_lost_count at the end *)
+  c_lost : N;                       (* implementation: shmem_lost_count at the end *)
+  c_logs : list (list pev)          (* implementation: what each thread was SEEN to put into its shm buffers
+                                       (deltas of the buffers after every hook call; Drop = losts went up);
+                                       [] = not observed (soak mode) *)
 }.
 Definition case_cfg (k : case) : cfg := {| maxsize := c_bufsize k - 16 |}.
 Definition case_run (k : case) :=
@@ -693,13 +696,16 @@ Definition case_diff (k : case) : option nat :=
   match case_run k with
   | (snaps, _) => first_diff 0 snaps (c_snaps k)
   end.
-(* the property checker on the implementation's outputs; the per-thread logs are those of the model
-   run (validated against the producer process operation by operation) *)
+(* the property checker on the implementation's outputs alone: the files against the logs observed in the
+   producer's buffers (step mode); in soak mode, where the buffers are not observed, against the model's logs
+   (no allocation failures there: the log is determined by the script) *)
 Definition case_ok (k : case) : bool :=
-  match case_run k with
-  | (_, Some (s, _)) => ok_c03 (map (plog s) (seq 0 (c_nt k))) (c_files k) (c_lost k)
-  | (_, None) => false
-  end.
+  if is_nil (c_logs k) then
+    match case_run k with
+    | (_, Some (s, _)) => ok_c03 (map (plog s) (seq 0 (c_nt k))) (c_files k) (c_lost k)
+    | (_, None) => false
+    end
+  else ok_c03 (c_logs k) (c_files k) (c_lost k).
 
 Fixpoint bad_indices {A} (f : A -> bool) (i : nat) (l : list A) : list nat :=
   match l with [] => [] | x :: r => if f x then bad_indices f (S i) r else i :: bad_indices f (S i) r end.
